@@ -10,7 +10,7 @@ From CGV Require Import Base.PyBase Base.PyVal Gen.FragGen Dialect.DialectImpl F
      Frag.StripFacts Frag.FragProofs Frag.FragTextX Frag.FragProofsX Frag.FragStages Frag.FragSmall Frag.RingProofs
      Gen.SmilesGen Frag.SmilesParse Frag.SmilesSpec Frag.SmilesProofs Frag.SmilesIndex Frag.SmilesRelabel Frag.SmilesPerm
      Frag.Template Frag.TemplateProofs Frag.TemplateFinal Frag.TemplateGraph Frag.TemplateCompose Frag.SmilesReverse Frag.SmilesPermR
-     Frag.FragTextW Frag.FragProofsW Frag.SmilesReroot Frag.SmilesRewrite Frag.SmilesPermX Frag.SmilesPermG Frag.SmilesWf Frag.SmilesDescend Frag.SmilesTree Frag.TemplateChiral Frag.TemplateChiralProofs.
+     Frag.FragTextW Frag.FragProofsW Frag.SmilesReroot Frag.SmilesRewrite Frag.SmilesPermX Frag.SmilesPermG Frag.SmilesWf Frag.SmilesDescend Frag.SmilesTree Frag.SmilesTreeText Frag.TemplateChiral Frag.TemplateChiralProofs.
 From CGV Require Import Base.NxGraph Compose.CutModel Compose.CutSpecDefs.
 Local Open Scope nat_scope.
 Import ListNotations.
@@ -704,6 +704,17 @@ Theorem C01_reroot1_total : forall a gs T, is_atomtok a = true -> groups gs -> t
 Proof. exact reroot1_total. Qed.
 Example C01_start_atom_tree_nonvacuous : tree_text ds_w /\ in_range [None; Some 2; Some 1] ds_w.
 Proof. exact tree_example. Qed.
+(** the same for the TEXTS: a tree text over admissible tokens ([all_ok]: organic-subset / bracket atoms) is in
+    [wf_smiles], the rewritings keep the tokens admissible, so what pysmiles builds from the original text and from the
+    text written from ANY atom of a ring-free fragment are related by the returned permutation *)
+Theorem C01_tree_text_wf : forall w, tree_text w -> all_ok w = true -> wf_smiles w = true.
+Proof. exact tree_text_wf. Qed.
+Theorem C01_start_atom_any_tree_text : forall path w, tree_text w -> all_ok w = true -> in_range path w ->
+  exists w' s, descend_path path w = Some (w', s) /\ wf_smiles w = true /\ wf_smiles w' = true /\
+    graphs_rel s (smiles_parse (render_smiles false w)) (smiles_parse (render_smiles false w')).
+Proof. exact descend_path_total_text. Qed.
+Example C01_start_atom_tree_text_nonvacuous : tree_text ds_w /\ all_ok ds_w = true /\ in_range [None; Some 2; Some 1] ds_w.
+Proof. exact tree_text_example. Qed.
 (** the documented bond orders are the ones of the installed pysmiles *)
 Theorem C13_smiles_orders : forall b, smiles_bond_to_order_lookup [bchar b] = Ok (border b).
 Proof. exact smiles_order_bchar. Qed.
@@ -750,3 +761,4 @@ Print Assumptions C01_start_atom_reroot_text.
 Print Assumptions C01_branch_order_anyrings_text.
 Print Assumptions C01_start_atom_any_partial.
 Print Assumptions C01_start_atom_any_tree.
+Print Assumptions C01_start_atom_any_tree_text.
